@@ -120,6 +120,8 @@ def emit_record(root, sheap, rootidx, note, o):
         rec.update(boc=[], map=[], err=type(e).__name__)
         return rec
     rec['boc'] = list(data)
+    if len(sheap) <= 8 and not o['idx'] and not o['crc']:
+        rec['rhash'] = list(root.hash)
     try:
         bag, _, starts = bk.scan(data)
         rec['map'] = bk.map_heap_to(sheap, bk.positions_by_content(bag))
